@@ -101,6 +101,14 @@ theorem iter_reach {multi : Bool} {s : St} (hr : Reach multi s) : s.iter = abs s
 theorem iter_run (multi : Bool) (ops : List Op) : (run multi ops).iter = abs (run multi ops) :=
   iter_reach (reach_run multi ops)
 
+/-- walking the `prev` links from `end()` back to `begin()` (iterator `--`) yields the contents in reverse -/
+theorem iter_backward_reach {multi : Bool} {s : St} (hr : Reach multi s) :
+    s.order.reverse.filterMap (fun id => (s.t.inorder.find? (fun e => e.1 == id)).map (fun e => e.2)) = (abs s).reverse := by
+  rw [List.filterMap_reverse]
+  have := iter_reach hr
+  unfold St.iter at this
+  rw [this]
+
 /-- Reading the `p`-th item through the prev/next list (what the code does with `position.item`,
     `->prev`, `->next`) gives the entry the model reads at in-order position `p` — the model's
     position-based reads in `insertAt` / `removeAt` are reads through the list. -/
